@@ -1077,6 +1077,7 @@ func (r *runningStep) startPlugin() deployer.Plugin {
 	}
 	r.lock.Unlock()
 	r.logger.Debugf("Successfully deployed container with ID '%s' for step %s/%s", pluginConnection.ID(), r.runID, r.pluginStepID)
+	r.markUnreachable(fmt.Errorf("step %s/%s deployed", r.runID, r.pluginStepID), StageIDDeployFailed)
 	return pluginConnection
 }
 
@@ -1345,6 +1346,7 @@ func (r *runningStep) runStage(forceCloseTimeoutMS int64) error {
 	// Execution complete, move to state running stage outputs, then to state finished stage.
 	r.transitionRunningStage(StageIDOutput)
 	r.completeStep(r.currentStage, step.RunningStepStateFinished, &result.OutputID, &result.OutputData)
+	r.markUnreachable(fmt.Errorf("step %s/%s completed", r.runID, r.pluginStepID), StageIDCrashed, StageIDClosed)
 
 	return nil
 }
@@ -1375,6 +1377,14 @@ func (r *runningStep) markNotClosable(err error) {
 	r.stageChangeHandler.OnStepStageFailure(r, string(StageIDClosed), &r.wg, err)
 }
 
+// markUnreachable declares that the given stages will not happen anymore, so that
+// nothing keeps waiting for their outputs.
+func (r *runningStep) markUnreachable(err error, stages ...StageID) {
+	for _, stage := range stages {
+		r.stageChangeHandler.OnStepStageFailure(r, string(stage), &r.wg, err)
+	}
+}
+
 func (r *runningStep) deployFailed(err error) {
 	r.logger.Debugf("Deploy failed stage for step %s/%s", r.runID, r.pluginStepID)
 	r.transitionRunningStage(StageIDDeployFailed)
@@ -1390,6 +1400,7 @@ func (r *runningStep) deployFailed(err error) {
 	err = fmt.Errorf("deployment failed for step %s/%s", r.runID, r.pluginStepID)
 	r.markStageFailures(StageIDEnabling, err)
 	r.markNotClosable(err)
+	r.markUnreachable(err, StageIDCrashed)
 }
 
 func (r *runningStep) transitionToDisabled() {
@@ -1413,6 +1424,7 @@ func (r *runningStep) transitionToDisabled() {
 	err := fmt.Errorf("step %s/%s disabled", r.runID, r.pluginStepID)
 	r.markStageFailures(StageIDStarting, err)
 	r.markNotClosable(err)
+	r.markUnreachable(err, StageIDCrashed)
 }
 
 func (r *runningStep) closedEarly(stageToMarkUnresolvable StageID, priorStageFailed bool) {
@@ -1434,6 +1446,7 @@ func (r *runningStep) closedEarly(stageToMarkUnresolvable StageID, priorStageFai
 
 	err := fmt.Errorf("step %s/%s closed due to workflow termination", r.runID, r.pluginStepID)
 	r.markStageFailures(stageToMarkUnresolvable, err)
+	r.markUnreachable(err, StageIDCrashed, StageIDDeployFailed)
 }
 
 func (r *runningStep) startFailed(err error) {
